@@ -116,6 +116,15 @@ func main() {
 		}
 		s.Gen(ctx)
 	}
+	if dump := os.Getenv("VERIF_DUMP"); dump != "" {
+		f, _ := os.Create(dump)
+		for _, r := range ctx.reqs {
+			b, _ := json.Marshal(r)
+			f.Write(b)
+			f.Write([]byte("\n"))
+		}
+		f.Close()
+	}
 	res := &Result{Property: *prop, Tier: *tier, Seed: *seed, Ops: ctx.Ops, Tags: ctx.Tags, Notes: ctx.Notes, CorpusN: ctx.fromCor}
 	orc, err := StartOracle(*oraclePath)
 	if err != nil {
